@@ -471,6 +471,19 @@ pub fn gen(seed: u64, count: usize, thorough: bool) -> String {
             writeln!(out, "emit {who} {hook} {key} {kind} {dst} {delay} {id}{task}").unwrap();
             last = Some((who, hook, key));
         }
+        // occasionally one big burst from a single callback: > 32 sends with unsorted, tie-heavy due times and
+        // distinct ids (program order of same-time emissions must survive the flush of the emission buffer)
+        if r.chance(1, 8) {
+            let m = r.pick(&mods).clone();
+            let dst = r.pick(&mods).clone();
+            let n = r.range(34, 64);
+            let ds = [*r.pick(&DELAYS), *r.pick(&DELAYS), *r.pick(&DELAYS)];
+            let kind = if r.chance(1, 2) { "send" } else { "sched" };
+            for i in 0..n {
+                let delay = ds[((i * 7 + i / 3) % 3) as usize];
+                writeln!(out, "emit H:{m} simstart 0 {kind} {dst} {delay} {}", 100 + i).unwrap();
+            }
+        }
         // injected messages
         let ninit = r.range(1, if thorough { 8 } else { 5 });
         for _ in 0..ninit {
